@@ -53,6 +53,11 @@ def inputs(ctx):
     cs += [curves.random_curve(rng, 17, 60) for _ in range(40 if ctx.quick else 400)]
     cs += [curves.random_curve(rng, n, n, kind=rng.choice([0, 2, 4])) for n in ([600, 1500] if ctx.quick else [600, 1500, 4000])]   # long curves (chain cut at k=14)
     cs += curves.trace_windows(rng, 6 if ctx.quick else 50, 20, 80, names=("web0_reduced.csv", "usr0.csv", "web2.csv"))
+    for _ in range(40 if ctx.quick else 400):          # spiky, steep, non-monotone curves: points project outside their chord,
+        n = rng.randint(6, 30)                         # so the two distance options really differ
+        x = np.cumsum([rng.choice([1, 1, 2, 7]) for _ in range(n)]).astype(float)
+        y = np.array([rng.choice([0.5, 1.0, 40.0, 90.0, 200.0]) * rng.random() + 1.0 for _ in range(n)])
+        cs.append(curves.mk(x, y))
     items = []
     for ci, P in enumerate(cs):
         combos = [(d, o) for d in simpl.DISTANCES for o in simpl.ORDERS]
